@@ -48,7 +48,7 @@ func Profiles() map[string]Profile {
 		ReadIters: true, RangeKeys: 1, MaxIters: 3, IterCls: "view"})
 	add(Profile{Name: "C05", W: map[string]int{"write": 25, "maint": 6, "batchnew": 10, "batchop": 35, "batchget": 20, "batchscan": 8, "batchiter": 8, "batchend": 8, "leak": 10, "batchview": 8},
 		RangeKeys: 1, LatestCls: "batchleak", MaxIters: 2, Limits: true})
-	add(Profile{Name: "C02", W: map[string]int{"write": 25, "maint": 6, "positer": 10, "posop": 70, "close": 4, "setbounds": 6, "setopts": 3},
+	add(Profile{Name: "C02", W: map[string]int{"write": 25, "maint": 6, "positer": 10, "posop": 70, "close": 4, "setbounds": 6, "setopts": 3, "npsweep": 5, "straddle": 4},
 		RangeKeys: 1, MaxIters: 2, IterCls: "pos", Masks: true, Limits: true})
 	add(Profile{Name: "C08", W: map[string]int{"write": 35, "ingest": 8, "maint": 12, "positer": 10, "posop": 50, "close": 4, "scan": 8},
 		RangeKeys: 5, MaxIters: 2, IterCls: "rk", ScanLatest: true, LatestCls: "rk"})
@@ -369,7 +369,7 @@ func (g *Gen) actMaint() {
 
 func (g *Gen) readSrc(src int, cls string, tainted bool) {
 	if !tainted && g.Rng.IntN(2) == 0 {
-		g.R.Exec(Ev{"op": "scan", "src": src, "cls": cls})
+		g.scanEither(src, cls)
 		return
 	}
 	for i := 0; i < 3; i++ {
@@ -384,7 +384,7 @@ func (g *Gen) rereadViews() {
 			if g.snapTaint[s] {
 				g.R.Exec(Ev{"op": "get", "src": s, "k": g.key(), "cls": "snap"})
 			} else {
-				g.R.Exec(Ev{"op": "scan", "src": s, "cls": "snap"})
+				g.scanEither(s, "snap")
 			}
 		}
 		for _, s := range g.efoss {
@@ -429,12 +429,21 @@ func (g *Gen) walkIter(it *genIter) {
 
 var _ = 0
 
+// forward or backward full scan
+func (g *Gen) scanEither(src int, cls string) {
+	if g.Rng.IntN(3) == 0 {
+		g.R.Exec(Ev{"op": "rscan", "src": src, "cls": cls})
+	} else {
+		g.R.Exec(Ev{"op": "scan", "src": src, "cls": cls})
+	}
+}
+
 func (g *Gen) afterWrite() {
 	if g.R.Fatal != nil {
 		return
 	}
 	if g.P.ScanLatest {
-		g.R.Exec(Ev{"op": "scan", "src": 0, "cls": g.P.LatestCls})
+		g.scanEither(0, g.P.LatestCls)
 	}
 	for i := 0; i < g.P.GetLatest; i++ {
 		g.R.Exec(Ev{"op": "get", "src": 0, "k": g.key(), "cls": g.P.LatestCls})
@@ -913,6 +922,15 @@ func (g *Gen) Step() {
 		g.actNewIter()
 	case "viewop", "posop":
 		g.actIterOp()
+	case "straddle":
+		g.actStraddle()
+	case "npsweep":
+		if len(g.iters) == 0 {
+			g.actNewIter()
+		}
+		if len(g.iters) > 0 {
+			g.npSweep(g.iters[g.Rng.IntN(len(g.iters))])
+		}
 	case "setbounds":
 		g.actSetBounds()
 	case "setopts":
